@@ -168,7 +168,14 @@ fn gen_spec(rng: &mut Rng, screen: &mut Screen) -> RunSpec {
     k.min_eligible = rng.range(1, 3);
     k.max_files_per_dir = k.max_files_per_dir.max(2);
     gen::gen_tree(rng, screen, &mut world, "/w/c", &k);
-    let dir = gen::place_cwd(rng, &mut world, "/w/c", gen::CwdPlace::Parent);
+    // the inert file may even carry the report's own name, in the analysed directory itself
+    if rng.chance(1, 4) {
+        let fill = *rng.pick(&INERT_FILLS);
+        let (bytes, fault) = inert_content(fill, rng);
+        world.put_file("/w/c/solstat_report.md", bytes, fault);
+    }
+    let place = *rng.pick(&[gen::CwdPlace::Parent, gen::CwdPlace::Parent, gen::CwdPlace::Equal, gen::CwdPlace::Child, gen::CwdPlace::Unrelated]);
+    let dir = gen::place_cwd(rng, &mut world, "/w/c", place);
     let (schedule, _, _) = gen::gen_schedule(rng, &world);
     RunSpec {
         world,
